@@ -121,7 +121,7 @@ def parse_session(lines):
             s["commit"] = " ".join(t[1:])
         elif t[0] == "uh":
             s["uh"] = " ".join(t[1:])
-        elif t[0] == "caches":
+        elif t[0] in ("caches", "cache_before"):
             kv = dict(x.split("=", 1) for x in t[1:] if "=" in x)
 
             def pc(v):
@@ -132,7 +132,7 @@ def parse_session(lines):
                     i, seg, mc = h.split("@")
                     out.append((i, int(seg), int(mc)))
                 return out
-            s["caches"] = {"req": pc(kv["req"]), "resp": pc(kv["resp"])}
+            s["caches" if t[0] == "caches" else "cache_before"] = {"req": pc(kv["req"]), "resp": pc(kv["resp"])}
     return s
 
 
@@ -143,11 +143,12 @@ def split_events(out_lines, script_lines):
     for op in script_lines:
         k = op.split()[0]
         chunk = []
-        if k == "sess":
+        if k in ("sess", "conv"):
+            end = "sess done" if k == "sess" else "conv done"
             while i < len(out_lines):
                 chunk.append(out_lines[i])
                 i += 1
-                if chunk[-1] == "sess done" or chunk[-1].startswith("panic in"):
+                if chunk[-1].startswith(end) or chunk[-1].startswith("panic in"):
                     break
         else:
             if i < len(out_lines):
@@ -155,6 +156,25 @@ def split_events(out_lines, script_lines):
                 i += 1
         res.append((op, chunk))
     return res
+
+
+def sub_events(chunk):
+    """Events inside a `conv` chunk: [("dump", dict) | ("sess", dict)] in order."""
+    out = []
+    cur = None
+    for l in chunk:
+        if l.startswith("dump "):
+            out.append(("dump", parse_dump(l)))
+        elif l.startswith("conv done") or l.startswith("panic in"):
+            continue
+        else:
+            if cur is None:
+                cur = []
+            cur.append(l)
+            if l == "sess done":
+                out.append(("sess", parse_session(cur)))
+                cur = None
+    return out
 
 
 # ---------------------------------------------------------------- id ranks and Coq rendering
@@ -475,3 +495,89 @@ def run_world(binp, case, extra_args=()):
     if rc != 0:
         return None, "runner exit %d: %s" % (rc, err[-500:])
     return split_events(out.splitlines(), case["lines"]), None
+
+
+# ---------------------------------------------------------------- postcard encoding of the sync wire types (Python, independent of Rust)
+
+def varint(n):
+    out = bytearray()
+    while True:
+        b = n & 0x7F
+        n >>= 7
+        if n:
+            out.append(b | 0x80)
+        else:
+            out.append(b)
+            return bytes(out)
+
+
+def enc_id(b32):
+    return varint(len(b32)) + b32
+
+
+def enc_addr(a):            # (id bytes, max_cut)
+    return enc_id(a[0]) + varint(a[1])
+
+
+def enc_prio(p):            # ("M",) ("B", n) ("F",) ("I",)
+    return {"M": b"\x00", "F": b"\x02", "I": b"\x03"}.get(p[0]) or (b"\x01" + varint(p[1]))
+
+
+def enc_prior(ps):
+    return varint(len(ps)) + b"".join(enc_addr(a) for a in ps)
+
+
+def enc_meta(m):            # dict id, prio, parents, plen, len
+    return enc_id(m["id"]) + enc_prio(m["prio"]) + enc_prior(m["parents"]) + varint(m["plen"]) + varint(m["len"])
+
+
+def enc_resp(m):
+    k = m["kind"]
+    if k == "resp":
+        return b"\x00" + varint(m["sid"]) + varint(m["idx"]) + varint(m.get("count", len(m["cmds"]))) + b"".join(enc_meta(c) for c in m["cmds"])
+    if k == "end":
+        return b"\x01" + varint(m["sid"]) + varint(m["max"]) + bytes([m.get("remaining", 0)])
+    if k == "offer":
+        return b"\x02" + varint(m["sid"]) + enc_id(m["head"])
+    return b"\x03" + varint(m["sid"])
+
+
+def enc_req(m):
+    k = m["kind"]
+    if k == "request":
+        return b"\x00" + varint(m["sid"]) + enc_id(m["gid"]) + varint(m["max_bytes"]) + varint(m.get("count", len(m["cmds"]))) + b"".join(enc_addr(a) for a in m["cmds"])
+    if k == "missing":
+        return b"\x01" + varint(m["sid"]) + varint(len(m["idxs"])) + b"".join(varint(i) for i in m["idxs"])
+    if k == "resume":
+        return b"\x02" + varint(m["sid"]) + varint(m["idx"]) + varint(m["max_bytes"])
+    return b"\x03" + varint(m["sid"])
+
+
+def enc_duration(d):
+    return varint(d[0]) + varint(d[1])
+
+
+def enc_sync_type(m):
+    k = m["kind"]
+    if k == "poll":
+        return b"\x00" + enc_req(m["req"])
+    if k == "subscribe":
+        return b"\x01" + varint(m["remain_open"]) + varint(m["max_bytes"]) + varint(m.get("count", len(m["cmds"]))) + b"".join(enc_addr(a) for a in m["cmds"]) + enc_id(m["gid"])
+    if k == "unsubscribe":
+        return b"\x02" + enc_id(m["gid"])
+    if k == "push":
+        return b"\x03" + enc_resp(m["msg"]) + enc_id(m["gid"])
+    h = m["hello"]
+    if h["kind"] == "subscribe":
+        return b"\x04\x00" + enc_id(h["gid"]) + enc_duration(h["d1"]) + enc_duration(h["d2"]) + enc_duration(h["d3"])
+    if h["kind"] == "unsubscribe":
+        return b"\x04\x01" + enc_id(h["gid"])
+    return b"\x04\x02" + enc_id(h["gid"]) + enc_addr(h["head"])
+
+
+def coq_byte_list(bs):
+    """bytes as a hex string literal decoded inside Coq (long list literals parse very slowly)"""
+    return '(hx "%s"%%string)' % bytes(bs).hex()
+
+
+COQ_HEADER_STR = COQ_HEADER.replace("Open Scope N_scope.", "From Coq Require Import String.\nOpen Scope N_scope.")
